@@ -173,15 +173,34 @@ def datainfo_to_cdt(d):
 # classes
 # ----------------------------------------------------------------------------------------
 UNITS = ['', 'K', 'mbar', 'T']
+REF_UNITS = ['$', '$/s', '%/$', '$$']          # units referring to the unit of the main value
 KINDS = ['KA', 'KB']
+
+
+def gen_unit(rng):
+    return rng.choice(REF_UNITS) if rng.random() < 0.3 else rng.choice(UNITS)
+
+
+def gen_tuple(rng):
+    """TupleOf(...) of 2-3 numeric members (a window: tolerance and time; a table row): no unit of its own, the units -
+    also references to the main unit - sit in the members"""
+    ms = []
+    for _ in range(rng.choice([2, 2, 3])):
+        m = gen_dt(rng, False)
+        while m['t'] not in ('double', 'int'):
+            m = gen_dt(rng, False)
+        ms.append(m)
+    return {'t': 'tuple', 'members': ms}
 
 
 def gen_dt(rng, allow_array=True):
     r = rng.random()
+    if allow_array and r < 0.08:
+        return gen_tuple(rng)
     if r < 0.35:
         lo = rng.choice([-40, -8, 0, 0, 4, 10])
         hi = lo + rng.choice([0, 4, 16, 40, 400])
-        return {'t': 'double', 'min': lo, 'max': hi, 'unit': rng.choice(UNITS)}
+        return {'t': 'double', 'min': lo, 'max': hi, 'unit': gen_unit(rng)}
     if r < 0.55:
         lo = rng.choice([-10, 0, 0, 1, 5])
         return {'t': 'int', 'min': lo, 'max': lo + rng.choice([0, 1, 5, 100])}
@@ -195,9 +214,12 @@ def gen_dt(rng, allow_array=True):
         vals = rng.sample(range(0, 8), len(names))
         return {'t': 'enum', 'members': sorted([[n, v] for n, v in zip(names, vals)], key=lambda m: m[1])}
     lo = rng.choice([0, 0, 1, 2])
-    m = gen_dt(rng, False)
-    while m['t'] not in ('double', 'int'):
+    if rng.random() < 0.25:
+        m = gen_tuple(rng)                     # a table: ArrayOf(TupleOf(...))
+    else:
         m = gen_dt(rng, False)
+        while m['t'] not in ('double', 'int'):
+            m = gen_dt(rng, False)
     return {'t': 'array', 'minlen': lo, 'maxlen': lo + rng.choice([0, 1, 3]), 'members': m}
 
 
@@ -238,6 +260,8 @@ def valid_value(rng, c, where='any'):
     if t == 'array':
         n = rng.randint(c['minlen'], c['maxlen'])
         return [valid_value(rng, c['members'], where) for _ in range(n)]
+    if t == 'tuple':
+        return [valid_value(rng, m, where) for m in c['members']]
     raise ValueError(t)
 
 
@@ -262,6 +286,9 @@ def bad_value(rng, c):
     if t == 'array':
         cands = [5, None, [valid_value(rng, c['members'], 'inside')] * (c['maxlen'] + 1), ['x'] * max(1, c['minlen'])]
         return rng.choice(cands)
+    if t == 'tuple':
+        ok = [valid_value(rng, m, 'inside') for m in c['members']]
+        return rng.choice([5, None, ok[:-1], ok + [1], ['x'] * len(ok)])
     raise ValueError(t)
 
 
@@ -269,18 +296,35 @@ def gen_class(rng, idx):
     """class spec (JSON-able)"""
     params = []
     names = ['pa', 'pb', 'pc', 'pd', 'pe']
-    if rng.random() < 0.25:
-        names[0] = 'value'                     # a predefined name: exported without underscore
+    if rng.random() < 0.45:
+        names[0] = 'value'                     # a predefined name: exported without underscore; its unit is the main unit
     for name in names[:rng.randint(1, 5)]:
         c = gen_dt(rng)
+        if name == 'value' and rng.random() < 0.8:
+            while c['t'] != 'double' and not (c['t'] == 'array' and c['members']['t'] == 'double'):
+                c = gen_dt(rng)
+            (c if c['t'] == 'double' else c['members'])['unit'] = rng.choice(UNITS[1:] + UNITS[1:] + [''])
+        if name == 'value':
+            # the main value does not refer to itself: a main unit containing `$` is never generated (observation in the
+            # design notes: it would be substituted into itself, twice where a datatype object is shared)
+            def plain(d):
+                if d['t'] == 'double' and '$' in d['unit']:
+                    d['unit'] = rng.choice(UNITS)
+                for m in ([d['members']] if d['t'] == 'array' else d['members'] if d['t'] == 'tuple' else []):
+                    plain(m)
+            plain(c)
         needscfg = rng.random() < 0.2
-        has_default = (not needscfg) and rng.random() < 0.8
+        # a required value (needscfg) is required whether or not the parameter has a default: a default is not a
+        # configured value (it is never written to the hardware)
+        has_default = rng.random() < (0.5 if needscfg else 0.8)
         p = {'name': name, 'dt': c, 'limit': None, 'base': '', 'needscfg': needscfg,
              'write': rng.random() < 0.5, 'read': rng.random() < 0.3, 'readonly': rng.random() < 0.4,
              'default': wrap(valid_value(rng, c, 'inside')) if has_default else None,
              'pyvalue_default': None, 'value': None, 'export': True}
         if has_default:
             p['pyvalue_default'] = p['default']['v']
+        if needscfg and rng.random() < 0.4:
+            p['inherit'] = True
         if (not needscfg) and rng.random() < 0.12:
             v = valid_value(rng, c, 'inside')
             p['value'] = wrap(v)                # class-level value: written at start-up even without cfg
@@ -382,6 +426,15 @@ def build_class(spec):
             kw = {'readonly': p['readonly'], 'needscfg': p['needscfg'], 'default': pyval(p['default']['v'])}
             basens[name] = Parameter(f'param {name}', build_dt(p['dt']), optional=True, **kw)
             ns[name] = Parameter()          # implemented here: properties are inherited
+        elif p.get('inherit'):
+            # declared in a base class (datatype, default); this class only says that the value MUST be configured
+            kw = {'readonly': p['readonly']}
+            if p['default'] is not None:
+                kw['default'] = pyval(p['default']['v'])
+            if p['export'] is not True:
+                kw['export'] = p['export']
+            basens[name] = Parameter(f'param {name}', build_dt(p['dt']), **kw)
+            ns[name] = Parameter(needscfg=True)
         elif p['limit']:
             kw = {}
             if p['export'] is not True:
@@ -538,7 +591,7 @@ def class_desc(spec, cls):
                    ['export', canon(aobj.export)]]
             params.append({'name': aname, 'dt': p['dt'], 'limit': p['limit'], 'base': p['base'],
                            'value': wrap(aobj.value, aobj.value is not None),          # as stored on the class (converted)
-                           'default': wrap(aobj.default, aobj.default is not None), 'needscfg': p['needscfg'],
+                           'default': wrap(aobj.default, aobj.default is not None), 'needscfg': bool(aobj.needscfg),
                            'write': ('write_' + aname) in cls.wrappedAttributes, 'own': own,
                            'consumes': consumes.get(aname, [])})
         else:
@@ -585,7 +638,7 @@ def gen_param_cfg(rng, p, force_value=False):
                 if nlo <= hi:
                     items.append(('min', nlo / 4 if t == 'double' else nlo))
         if t == 'double' and rng.random() < 0.3:
-            items.append(('unit', rng.choice(['mK', 'V', 'bar'])))
+            items.append(('unit', rng.choice(['mK', 'V', 'bar'] if p['name'] == 'value' else ['mK', 'V', 'bar', 'V', 'bar', '$', '$/min'])))
         if t == 'string' and rng.random() < 0.3:
             items.append(('maxchars', max(c['minchars'], c['maxchars'] + rng.choice([-2, -1, 0, 1, 5]))))
         if t == 'array' and rng.random() < 0.3:
@@ -691,6 +744,9 @@ def inject(rng, spec, cfg, kind):
         ent = cfg.get(q['name'])
         if ent and ent[0] == 'dict':
             its = [kv for kv in ent[1] if kv[0] != 'value']
+            if rng.random() < 0.3 and not any(kv[0] == 'default' for kv in its):
+                # "only a default given": a default is not the required value
+                its.append(('default', valid_value(rng, final_dt_guess(q['dt'], its), 'inside')))
             if its:
                 cfg[q['name']] = ('dict', its)
             else:
@@ -699,7 +755,8 @@ def inject(rng, spec, cfg, kind):
     if kind == 'unknown_param_prop':
         foreign = {'double': ['maxchars', 'minlen', 'nosuch'], 'int': ['unit', 'maxchars', 'nosuch'],
                    'string': ['min', 'unit', 'nosuch'], 'bool': ['min', 'nosuch'], 'enum': ['max', 'nosuch'],
-                   'array': ['maxchars', 'nosuch'] + (['unit'] if c['t'] == 'array' and c['members']['t'] == 'int' else [])}[c['t']]
+                   'tuple': ['unit', 'min', 'maxlen', 'nosuch'],
+                   'array': ['maxchars', 'nosuch'] + (['unit'] if c['t'] == 'array' and c['members']['t'] in ('int', 'tuple') else [])}[c['t']]
         items.insert(rng.randint(0, len(items)), (rng.choice(foreign), rng.choice([1, 'x'])))
     elif kind == 'bad_param_prop':
         cands = [('readonly', 'maybe'), ('readonly', 2), ('visibility', 'nonsense'), ('visibility', 9), ('export', 5),
@@ -731,6 +788,8 @@ def inject(rng, spec, cfg, kind):
             items += rng.choice([[('min', c['max'] + 1)], [('max', c['min'] - 1)], [('min', 4), ('max', 3)]])
         elif t == 'string':
             items += rng.choice([[('minchars', c['maxchars'] + 1)], [('minchars', 5), ('maxchars', 4)]])
+        elif t == 'array' and c['members']['t'] == 'tuple':
+            items += rng.choice([[('minlen', c['maxlen'] + 1)], [('minlen', 3), ('maxlen', 2)]])
         elif t == 'array':
             m = c['members']
             items += rng.choice([[('minlen', c['maxlen'] + 1)], [('min', m['max'] + 1 if m['t'] == 'int' else (m['max'] + 4) / 4)],
